@@ -257,7 +257,7 @@ fn gen_case(c: &mut Chooser) -> Option<Case> {
     let mut base = c05::gen_valid(c);
     // root-type situations the two routes encode differently (explicit object in the JSON, a
     // schema definition or the default names in SDL)
-    match c.choose("roots", 4) {
+    match c.choose("roots", 5) {
         0 => {}
         1 => {
             // the schema definition leaves the mutation root out although a type named Mutation exists
@@ -274,6 +274,19 @@ fn gen_case(c: &mut Chooser) -> Option<Case> {
             o.fields = vec![FieldDef { desc: None, name: nm("tick"), args: None, ty: Ty::nn(Ty::named("Int")), dirs: vec![] }];
             base.files[0].defs.push(o);
             base.tags.push("roots:unlisted-default-named-subscription".into());
+        }
+        3 => {
+            // query and subscription roots but no mutation root (a gap in the middle of the three)
+            let mut o = TsDef::new(TsKind::Object, Some("Subscription"));
+            o.fields = vec![FieldDef { desc: None, name: nm("tick"), args: None, ty: Ty::nn(Ty::named("Int")), dirs: vec![] }];
+            base.files[0].defs.push(o);
+            for f in base.files.iter_mut() {
+                for d in f.defs.iter_mut().filter(|d| d.kind == TsKind::Schema && !d.ext) {
+                    d.roots.retain(|(k, _)| *k != OpKind::Mutation);
+                    d.roots.push((OpKind::Subscription, nm("Subscription")));
+                }
+            }
+            base.tags.push("roots:query+subscription-without-mutation".into());
         }
         _ => {
             // ... and the same with an implicit schema, where it is the subscription root
